@@ -15,6 +15,7 @@ import (
 	"github.com/alttpo/snes/asm"
 	"github.com/alttpo/snes/color15"
 	"github.com/alttpo/snes/emulator"
+	"github.com/alttpo/snes/emulator/cpu65c816"
 	"github.com/alttpo/snes/mapping/util"
 	"pgregory.net/rapid"
 
@@ -41,6 +42,20 @@ func c18State(seed uint32) rig.Raw {
 		S: 0x01F0, D: uint16(rig.Mix(seed, 5)) << 8, PC: uint16(rig.Mix(seed, 6))<<8 | 0x10, DBR: rig.Mix(seed, 7), K: rig.Mix(seed, 8), P: rig.Mix(seed, 9) &^ wdc.FD}
 	a.E = rig.Mix(seed, 10)&3 == 0
 	return rig.ArchToRaw(a)
+}
+
+// c18Hooks registers program-counter hooks the way a caller does who was handed a CPU by the library: it keeps the
+// callback table the CPU already has (creating one only if there is none) and adds its own entries; the hooks count
+// into the workload's own counter.  The first address is the one the workload starts at, so at least one hook fires.
+func c18Hooks(c *cpu65c816.CPU, seed uint32, hits *int) {
+	if c.OnPC == nil {
+		c.OnPC = map[uint32]func(){}
+	}
+	st := c18State(seed)
+	start := uint32(st.RK)<<16 | uint32(st.PC)
+	for k := uint32(0); k < 6; k++ {
+		c.OnPC[start&0xff0000|(start+k*k)&0xffff] = func() { *hits++ }
+	}
 }
 
 type digest struct{ h uint64 }
@@ -86,9 +101,11 @@ func c18Run(w c18Work, rendezvous func()) (h uint64, err error) {
 		sys.Logger = &log
 		var wdm []byte
 		sys.CPU.OnWDM = func(b byte) { wdm = append(wdm, b) }
+		hits := 0
 		ready()
+		c18Hooks(&sys.CPU, w.Seed, &hits)
 		ret := sys.RunUntil(0xEE1234, uint64(w.N))
-		d.add(ret, fmt.Sprint(cpu.Raw()), log.Bytes(), wdm)
+		d.add(ret, fmt.Sprint(cpu.Raw()), log.Bytes(), wdm, hits)
 		memDigest(&d, mem)
 	case "sysmap": // the real memory map of CreateEmulator
 		sys := &emulator.System{}
@@ -132,7 +149,12 @@ func c18Run(w c18Work, rendezvous func()) (h uint64, err error) {
 		mem := rig.NewMem(w.Seed)
 		cpu.SetMem(mem)
 		cpu.LoadRaw(c18State(w.Seed))
+		hits := 0
 		ready()
+		if pc, ok := cpu.(*rig.Primary); ok {
+			c18Hooks(pc.C, w.Seed, &hits)
+			defer func() { pc.C.OnPC = nil }()
+		}
 		for i := 0; i < w.N; i++ {
 			if w.Kind == "pri" {
 				d.add(cpu.Disasm())
@@ -155,7 +177,7 @@ func c18Run(w c18Work, rendezvous func()) (h uint64, err error) {
 				break
 			}
 		}
-		d.add(fmt.Sprint(cpu.Raw()))
+		d.add(fmt.Sprint(cpu.Raw()), hits)
 		memDigest(&d, mem)
 	case "prifork", "altfork": // a CPU forked from another with InitFrom into an already initialised object
 		mk := func() rig.CPU {
@@ -296,6 +318,14 @@ func c18Run(w c18Work, rendezvous func()) (h uint64, err error) {
 			buf := make([]byte, 5)
 			m, e2 := io.ReadFull(r.BusReader(addr), buf)
 			d.add(n, fmt.Sprint(e), m, fmt.Sprint(e2), buf)
+			// header write-back and re-parse on this workload's own ROM, every round
+			r.Header.MaskROMVersion = byte(i)
+			r.Header.RAMSize = rig.Mix(w.Seed, uint32(i)) & 7
+			e3 := r.WriteHeader()
+			e4 := r.ReadHeader()
+			var hb bytes.Buffer
+			e5 := r.Header.WriteHeader(&hb)
+			d.add(fmt.Sprint(e3, e4, e5), hb.Bytes(), r.Contents[0x7fb0:0x8000], r.Header.HeaderVersion())
 		}
 		d.add(r.Contents)
 	case "pure":
